@@ -146,6 +146,7 @@ fn run_family(family: &str, tier: Tier, sink: &Sink) {
         "asts" => {
             // every hostile or unusual name in every naming role, and every short identifier in every role
             let mut named: Vec<String> = crate::c05::naming_sources();
+            named.extend(crate::c05::chain_sources());
             named.extend(crate::c10::name_probe_files());
             named.par_iter().for_each(|s| sink.feed(s));
             let m = tier.pick(3usize, 4usize);
